@@ -201,7 +201,11 @@ def adversary_case(task):
     order = []
     rec = Recorder(on_iter=lambda p, sol: order.extend((q.GetX(), q.GetZ()) for q in p))
     cfg = dict(N=1, box="B0", r=r, eps=eps, itersLimit=LIMIT)
-    run = tree.make_run(cfg, answer, listeners=[rec])
+    listeners = [rec]
+    if task.get("console"):
+        from iOpt.method.listener import ConsoleFullOutputListener
+        listeners.append(ConsoleFullOutputListener(mode=task["console"]))
+    run = tree.make_run(cfg, answer, listeners=listeners)
     try:
         if task.get("pre"):
             run.step(task["pre"])
@@ -346,6 +350,8 @@ def plan_adversary(ctx):
             for default in S:
                 others = [s for s in S if s != default]
                 tasks.append(dict(L=L, r=r, eps=eps, default=default, dev=[]))
+                for mode in ("custom", "full"):
+                    tasks.append(dict(L=L, r=r, eps=eps, default=default, dev=[], console=mode))
                 for i in ((5, 40, 300) if th else (40,)):
                     for a in others:
                         tasks.append(dict(L=L, r=r, eps=eps, default=default, dev=[[i, a]]))
